@@ -12,6 +12,10 @@ Three families of cases, all exhaustive over a finite world read from the live l
 (b) ``spec``: for every dispatcher (every key of every rule registry, every op class) and every argument type
     tuple of its bounded enumeration, the function returned by ``PartialDispatcher.partial_call`` must belong to
     a registered signature that matches and has no other matching signature strictly below it.
+(d) ``reg`` / ``alias`` (fv/props/c16_hist.py): histories of register / dispatch / cache-clear events on fresh
+    dispatchers and keyed registries, each dispatch compared with the reference over the signatures registered so
+    far and with a fresh object that never dispatched before; deep_type / deep_isinstance / dispatch on values
+    that compare equal but differ in nested element types, in every first-use order.
 (c) ``hist`` / ``perm`` / ``real``: the same answer after any other dispatch (every ordered pair, cold and warm
     cache), from a dispatcher rebuilt in permuted registration orders, and through the un-shimmed public entry
     points ``registry.dispatch(key, *args)`` / ``Op.dispatcher.partial_call(*args)`` on real argument values.
@@ -24,6 +28,7 @@ import numpy as np
 
 from .. import core
 from ..ref import dispatch as ref
+from . import c16_hist as H
 from . import c16_world as W
 
 ID = "C16"
@@ -33,6 +38,10 @@ LEVEL_RULE = (
     "(dispatcher, real argument tuple) [real]; tuples enumerated simplest first: each signature's own instantiation "
     "(union members and 0/1/2 variadic repeats expanded), recorded corpus tuples, then the position-wise product "
     "(complete when below the bound, otherwise all 1- then 2-position deviations from those tuples up to the bound); "
+    "[reg] every history of register / dispatch / cache-clear events on a fresh PartialDispatcher or KeyedRegistry "
+    "(chain, diamond, op-rule and two-key shapes) up to the depth bound, ending in a dispatch, non-trivial when a "
+    "signature is registered after a dispatch; [alias] every ordered pair (and some triples) of equal-but-differently-"
+    "typed nested values; "
     "non-trivial = at least two registered signatures match the tuple (spec/hist/perm/real), the row has a strict "
     "super- and a strict sub-type in the pool (sub), the value is a member of some but not all pool types (mem); "
     "distinct = distinct canonical text of (family, dispatcher, type tuple / order)"
@@ -529,6 +538,13 @@ def bounds(tier):
             "rule_registries": len(w["registries"]),
             "dispatchers": len(w["dispatchers"]),
             "registered_signatures": sum(len(i["d"].funcs) for i in w["dispatchers"].values()),
+            "registration_histories": {
+                "shapes": {k: {"signatures": len(v["adds"]), "argument_tuples": len(v["values"]), "entry_points": v["vias"]} for k, v in H.shapes().items()},
+                "depth": H.DEPTH["thorough" if tier == "thorough" else "quick"],
+                "events": "register(signature k) at most once each, dispatch(argument tuple j) through each entry point, "
+                "Dispatcher._cache.clear(); every sequence up to the depth whose last event is a dispatch",
+            },
+            "equal_value_groups": {"groups": len(H.groups()), "members_per_group": 5, "orders": "all ordered pairs, first %d ordered triples" % (60 if tier == "thorough" else 6)},
             "permutations": "all when <= 5 signatures, else identity, reversal and every order within "
             "%d adjacent transposition(s) of the registration order" % cfg["perm_transpositions"],
         }
@@ -565,6 +581,8 @@ def cases(tier):
         di = dinfo(dn, tier)
         for p in permutations_for(len(di["sigs"]), tier):
             out.append(["perm", dn, p])
+    out.extend(H.alias_cases(tier))
+    out.extend(H.reg_cases(tier))
     return out
 
 
@@ -1221,6 +1239,14 @@ def check(case, seed):
         return check_warm(case, tier)
     if fam == "perm":
         return check_perm(case, tier)
+    if fam == "reg":
+        import warnings
+
+        with warnings.catch_warnings():
+            warnings.simplefilter("ignore")  # multipledispatch announces the (intended) ambiguity of a half-built diamond
+            return H.check_reg(case)
+    if fam == "alias":
+        return H.check_alias(case)
     return core.skip(json.dumps(case), "unknown-family")
 
 
